@@ -754,6 +754,31 @@ pub fn check_multiset<K: Kit>(ctx: &mut Ctx, kit: &K, outs: &[Vec<OutOf<K>>], so
                 ctx.note(format!("unshard panicked on mismatched aggregate shares ({}): C16's subject", pclass(&pi)));
             }
         }
+        // Aggregator::aggregate over batches that contain mismatched output shares, at every
+        // position and also when EVERY share of the batch has the same wrong shape: the batch must be
+        // refused exactly as aggregate_init + accumulate refuses it (the shape of an aggregate is
+        // dictated by the aggregation parameter, not by the first share of the batch).
+        let (gsz, gpp) = kit.field(false);
+        let good = |rng: &mut Rng64| kit.mk_out(&rand_elems(rng, len, gsz, &gpp), false);
+        let bad = |rng: &mut Rng64| kit.mk_out(&rand_elems(rng, clen, sz, &pp), other);
+        let batches: Vec<(&str, Vec<OutOf<K>>)> = vec![
+            ("single-stray", vec![bad(rng)]),
+            ("all-stray", vec![bad(rng), bad(rng), bad(rng)]),
+            ("stray-first", vec![bad(rng), good(rng), good(rng)]),
+            ("stray-last", vec![good(rng), good(rng), bad(rng)]),
+            ("stray-middle", vec![good(rng), bad(rng), good(rng)]),
+        ];
+        for (bname, batch) in batches {
+            let encs: Vec<String> = batch.iter().map(|b| hex_trunc(&enc_of(b), 64)).collect();
+            ctx.eval();
+            match catch(|| kit.vdaf().aggregate(kit.agg_param(), batch)) {
+                Ok(Err(_)) => ctx.count("aggregate_batch_mismatch_refused"),
+                Ok(Ok(a)) => ctx.violation(format!("{fam}|aggregate|{cname}|{bname}|accepted"), "Aggregator::aggregate accepted a batch containing output shares whose length / tree level does not match the aggregation parameter",
+                    json!({"instance": kit.name(), "case": cname, "batch": bname, "output_shares": encs, "aggregate": hex_trunc(&enc_of(&a), 128)})),
+                Err(pi) => ctx.violation(format!("{fam}|aggregate|{cname}|{bname}|panic|{}", pclass(&pi)), "Aggregator::aggregate panicked on a batch containing a mismatched output share instead of refusing it",
+                    json!({"instance": kit.name(), "case": cname, "batch": bname, "output_shares": encs, "panic": pi.message, "at": pi.location})),
+            }
+        }
         ctx.evals(4);
     }
     // positive control for the mismatch oracle: a well-formed operand IS accepted and changes the
